@@ -1268,7 +1268,9 @@ func c01Container(c *Ctx, w, rd *ssa.Function, tr *an.Tracer, key string) {
 			}
 		}
 		// bytes field: the writer's value must be the length of the body it writes next; the reader reads `bytes` bytes as the body
-		if v, ok := an.EvalInt(wo[2].cs.Common.Args[1], func(x ssa.Value) (int64, bool) {
+		if len(wo[2].cs.Common.Args) < 2 || len(ro[3].cs.Common.Args) < 2 {
+			diffs = append(diffs, "the third operation of the writer is not a Put with a value, or the fourth of the reader is not a read of `bytes` bytes: the four fields are not written / read in the order msg_id, seq_no, bytes, body")
+		} else if v, ok := an.EvalInt(wo[2].cs.Common.Args[1], func(x ssa.Value) (int64, bool) {
 			if call, ok := x.(*ssa.Call); ok && an.CalleeName(call.Common()) == "builtin:len" && strings.Contains(tr.OriginString(call.Call.Args[0]), "messages.Encrypted.Msg") {
 				return 100, true
 			}
@@ -1276,7 +1278,7 @@ func c01Container(c *Ctx, w, rd *ssa.Function, tr *an.Tracer, key string) {
 		}); !ok || v != 100 {
 			diffs = append(diffs, sprintf("the writer puts bytes = %d for a 100-byte body; the reader (and the schema: bytes:int body:Object) take it as the body length", v))
 		}
-		if !valueIs(ro[3].cs.Common.Args[1], ro[2].cs.Value()) {
+		if len(ro[3].cs.Common.Args) >= 2 && !valueIs(ro[3].cs.Common.Args[1], ro[2].cs.Value()) {
 			diffs = append(diffs, "the reader does not read `bytes` bytes as the body")
 		}
 		for i, want := range []string{"messages.Encrypted.MsgID", "messages.Encrypted.SeqNo", "", "messages.Encrypted.Msg"} {
